@@ -48,6 +48,7 @@ type Step struct {
 	Rg      string   `json:"rg"`
 	Amt     int64    `json:"amt"`
 	Ans     int    `json:"ans"` // recharge: status the consumer's notification endpoint answers with (0 = 204)
+	Addr    string `json:"addr"` // create: which address members the consumer identification carries
 	Pad     int      `json:"pad"`
 	Chid    int32    `json:"chid"`
 	Tz      *int     `json:"tz"` // seconds east of UTC to install as time.Local before the step
@@ -250,7 +251,19 @@ func (d *SeqDriver) runOne(b *Behaviour) {
 			t0 := time.Now()
 			if st.A == "create" {
 				notify := env.SinkURL + "/n/" + st.U + "/" + st.S
-				body["nfConsumerIdentification"] = map[string]any{"nFName": st.C, "nodeFunctionality": "SMF"}
+				nfc := map[string]any{"nFName": st.C, "nodeFunctionality": "SMF"}
+				// how the consumer identifies its address: legal alternatives of NFIdentification
+				if st.Addr == "v4" || st.Addr == "all" {
+					nfc["nFIPv4Address"] = "10.1.2.3"
+				}
+				if st.Addr == "v6" || st.Addr == "all" {
+					nfc["nFIPv6Address"] = "2001:db8::1"
+				}
+				if st.Addr == "fqdn" || st.Addr == "all" {
+					nfc["nFFqdn"] = "smf.example.org"
+				}
+				args["addr"] = st.Addr
+				body["nfConsumerIdentification"] = nfc
 				body["notifyUri"] = notify
 				body["chargingId"] = st.Chid
 				if st.Onetime {
